@@ -391,7 +391,8 @@ def run(ctx):
       rid = len(recs) + 1
       try:
         rec, a = record(s, rid)
-      except Exception as ex:  # pylint: disable=broad-except
+      except U.ReaderRaised as rr:
+        ex = rr.original
         ctx.violation("reader_raises", {"scc": U.render_scc([(U.frames_to_label(fr, s["df"]), ws) for fr, ws in s["lines"]], s["df"], s["parity"]),
                                         "error": repr(ex)}, {"source": s["source"], "error": type(ex).__name__, "cause": "other"},
                       f"to_model raised {type(ex).__name__}: {ex}")
